@@ -16,7 +16,7 @@ Record case := {
   k_chunked : bool;
   k_chunks : list (list Z);        (* chunked read: entries per chunk for each register, lazy run *)
   k_chunks_eager : list (list Z);  (* the same for the eager run *)
-  k_prog : list op;
+  k_prog : list xop;                (* the ten operations (XB o) and sort_by *)
   k_lazy : list obs;               (* one observation per program step, lazy=True *)
   k_eager : list obs               (* ... lazy=False *)
 }.
@@ -69,7 +69,7 @@ Fixpoint split_by {A} (lens : list Z) (l : list A) : list (list A) :=
 (* how a register is initialised: read(), or np.concatenate(list(read_chunks(...))) *)
 Definition init_reg (F : fmt) (c : case) (k : nat) : option table :=
   if k_chunked c then
-    t_concat l_concat_cur F (map (fun rs => TLazy (fresh rs)) (split_by (nth k (k_chunks c) []) (k_recs c)))
+    t_concat_cur F (map (fun rs => TLazy (fresh rs)) (split_by (nth k (k_chunks c) []) (k_recs c)))
   else Some (TLazy (fresh (k_recs c))).
 Definition init_regs (F : fmt) (c : case) : option (list table) :=
   match init_reg F c 0, init_reg F c 1 with
@@ -92,14 +92,16 @@ Definition lazy_ok (c : case) : bool :=
   let F := fmt_of (k_fmt c) in
   match init_regs F c with
   | None => false
-  | Some regs => zip_all (tol c) (m_run l_concat_cur F (k_header c) regs (k_prog c)) (k_lazy c)
+  | Some regs => zip_all (tol c) (m_xrun_cur F (k_header c) regs (k_prog c)) (k_lazy c)
   end.
-(* the eager run is the eager implementation model: the Spec's rows, header context lost on derived tables *)
+(* the eager run is the eager implementation model: the Spec's rows, header context lost on derived tables.
+   Round 6: m_run_cur = m_run6 l_concat, e_run_cur = e_run6 (Model/C05.v) — the code after notes/C05.fix-4/5/6.diff; the
+   descriptor fields f_nowrite and f_eager_write_fails below are consulted by the PINNED models only (history). *)
 Definition eager_ok (c : case) : bool :=
   let F := fmt_of (k_fmt c) in
   (* an eagerly read BAM table never has the header context its writer needs (BamBuffer.get_data sets none) *)
   let t0 := (rows_of_file F (k_recs c), negb (k_chunked c) && negb (k_fmt c =? 6)) in
-  zip_all (tol c) (e_run F (k_header c) [t0; t0] (k_prog c)) (k_eager c).
+  zip_all (tol c) (e_xrun_cur F (k_header c) [t0; t0] (k_prog c)) (k_eager c).
 Definition model_ok (c : case) : bool := lazy_ok c && eager_ok c.
 
 Definition file_ok (c : case) : bool :=
@@ -132,4 +134,4 @@ Definition spec_ok (c : case) : bool :=
   file_ok c && chunks_ok c
   && Nat.eqb (length (k_lazy c)) (length (k_prog c))
   && zip_all (rel (canonical_file c)) (k_lazy c) (k_eager c)
-  && zip_all anchor (k_eager c) (s_run F (k_header c) [t0; t0] (k_prog c)).
+  && zip_all anchor (k_eager c) (s_xrun F (k_header c) [t0; t0] (k_prog c)).
